@@ -9,7 +9,7 @@ func init() {
 				"expansion: horizontal zoom finer than the vertical by 0..6 levels (2^d IDs), vertical finer than the horizontal by 0..2 (quick) / 0..3 (thorough) levels (4^d IDs), at bases 0,1,10,24,25,33; indices symbolic; region equality through a symbolic probe cell",
 			},
 			Outside: []string{"lists longer than 3", "expansion across more than the stated zoom difference (output size 4^d / 2^d)"},
-			Assumptions: []string{"token model of strings: an arbitrary string is a sequence of '/'-free fields with solver-chosen attributes (DESIGN §2.3)"},
+			Assumptions: []string{"VerifC10StrModel is a self-check of the encoder's character-level string model (len, index, slice, range, ordering, Count/SplitN/FieldsFunc), not of the library", "token model of strings: an arbitrary string is a sequence of '/'-free fields with solver-chosen attributes (DESIGN §2.3)"},
 		},
 		insts: func(tier string) []*Instance {
 			var is []*Instance
@@ -17,6 +17,12 @@ func init() {
 				is = append(is, mk("shape", "VerifC10Notation", cs("n", n)), mk("shape", "VerifC10NotationExt", cs("n", n)))
 			}
 			is = append(is, mk("shape", "VerifC10Arity", nil), mk("common/object", "VerifC10Object", nil), mk("transform", "VerifC10VoxelID", nil))
+			// engine self-check: the character-level string model against strconv's renderings
+			for k := 0; k <= 3; k++ {
+				in := mk("transform", "VerifC10StrModel", cs("k", k))
+				in.Unwind = 40
+				is = append(is, in)
+			}
 			for _, b := range []int{0, 1, 10, 24, 25, 33} {
 				for dh := 0; dh <= 6; dh++ {
 					for dv := 0; dv <= 3; dv++ {
@@ -40,6 +46,10 @@ func init() {
 				{Harness: "VerifC10Expand", PkgDir: "transform", Unwind: 100, Case: cs("h", 3, "v", 5), Inputs: map[string]string{"x": "5", "y": "2", "f": "-7", "px": "20", "py": "8", "pf": "-7"}},
 				{Harness: "VerifC10Expand", PkgDir: "transform", Unwind: 100, Case: cs("h", 5, "v", 3), Inputs: map[string]string{"x": "5", "y": "2", "f": "-7", "px": "5", "py": "2", "pf": "-28"}},
 				{Harness: "VerifC10VoxelID", PkgDir: "transform", Inputs: map[string]string{"h": "20", "x": "85263", "y": "65423", "v": "26", "f": "-56"}},
+				{Harness: "VerifC10StrModel", PkgDir: "transform", Unwind: 40, Case: cs("k", 0), Inputs: map[string]string{"v": "-90210"}},
+				{Harness: "VerifC10StrModel", PkgDir: "transform", Unwind: 40, Case: cs("k", 1), Inputs: map[string]string{"q": "2914"}},
+				{Harness: "VerifC10StrModel", PkgDir: "transform", Unwind: 40, Case: cs("k", 2), Inputs: map[string]string{"a": "9", "b": "10"}},
+				{Harness: "VerifC10StrModel", PkgDir: "transform", Unwind: 40, Case: cs("k", 3), Inputs: map[string]string{"s": "25//x/7/"}},
 			}
 		},
 	}
